@@ -72,7 +72,10 @@ P = dict(
                 "and tick boundary tables for chrono; scripted kernels over 40+ algorithms, static_vector, inplace_vector, array, span, "
                 "inplace_string, string_view, bitset, optional, pair/tuple, static_set; 21 element-typed kernels that run every comparing / copying / "
                 "searching / ordering algorithm and array / static_vector comparison through raw pointers to float, double, long double "
-                "(+-0, NaN, denormals, +-inf), signed char, short (negative values), bool, char8_t and an enum). The harness then calls the same function at run "
+                "(+-0, NaN, denormals, +-inf), signed char, short (negative values), bool, char8_t, an enum and a struct compared by key only; "
+                "heterogeneous kernels: byte-sized element ranges x values of wider types whose low byte matches an element, and ranges of "
+                "different element types holding the same bytes; a (From, To) matrix of 44 duration pairs with narrow reps x 423 tick counts "
+                "(every 2^k +- 1) for duration_cast / time_point_cast / floor / ceil / round and calendar arithmetic with large counts). The harness then calls the same function at run "
                 "time on volatile-laundered copies of the same arguments at -O0, -O2 and (cmath always, the rest in the thorough tier) "
                 "-O1+ASan/UBSan and compares bit for bit (NaN == NaN unless the function is defined on the sign bit). A SFINAE probe "
                 "records arguments inside the documented domain for which constant evaluation fails. Held means: no difference and no "
